@@ -171,6 +171,38 @@ Theorem C08_tree_product_either_order_partial :
        min_entry (filter (offending c) (filter (fun pc => is_prefix d (fst pc)) [(p, cl)])) = None).
 Proof. exact tree_product_either_order. Qed.
 
+(* Request level, current tree (probe = path): a static tree versus an amended output or volatile
+   output, ANY creators (the same step included), from ANY state satisfying the invariant in
+   which each request is acceptable on its own and which holds no undeclared input under the new
+   tree: the plan is rejected in both orders with the SAME structured message, or accepted in both
+   orders with the SAME final state (`both`). *)
+Theorem C08_tree_product_commute :
+  forall gm gr st c path s r p,
+    Inv gm gr st -> product_role r = true ->
+    filter (is_prefix (with_slash path)) (loose st) = [] ->
+    accepted (step gm false gr st (RqTree c path)) = true ->
+    accepted (step gm false gr st (amend1 s r p)) = true ->
+    both (run gm false gr st [RqTree c path; amend1 s r p])
+         (run gm false gr st [amend1 s r p; RqTree c path]).
+Proof. exact tree_product_commute. Qed.
+
+(* The hypotheses are satisfiable, with both outcomes: output under the tree (rejected in both
+   orders, tree/product message) and output elsewhere (accepted in both orders). *)
+Example C08_tree_product_commute_example :
+  let st := run_skip w_gm false false empty_state
+              [RqDefine CRoot w_plan [] [] []; RqDefine (CStep w_plan) w_A [] [] [];
+               RqDefine (CStep w_plan) w_B [] [] []] in
+  accepted (step w_gm false false st (RqTree (CStep w_B) w_d)) = true /\
+  accepted (step w_gm false false st (amend1 w_A ROutput (w_d ++ [47; 120]))) = true /\
+  run w_gm false false st [RqTree (CStep w_B) w_d; amend1 w_A ROutput (w_d ++ [47; 120])]
+    = Err (MTreeProduct (w_d ++ [47]) (w_d ++ [47; 120])) /\
+  run w_gm false false st [amend1 w_A ROutput (w_d ++ [47; 120]); RqTree (CStep w_B) w_d]
+    = Err (MTreeProduct (w_d ++ [47]) (w_d ++ [47; 120])) /\
+  accepted (run w_gm false false st [RqTree (CStep w_B) w_d; amend1 w_A RVolatile w_d]) = true /\
+  run w_gm false false st [RqTree (CStep w_B) w_d; amend1 w_A RVolatile w_d]
+    = run w_gm false false st [amend1 w_A RVolatile w_d; RqTree (CStep w_B) w_d].
+Proof. vm_compute. repeat split; reflexivity. Qed.
+
 (* Glob versus build product, decision level, once register_nglob scans the products: both
    sites decide by `gm pat p` and raise the same structured message. *)
 Theorem C08_glob_product_either_order_partial :
